@@ -53,13 +53,14 @@ Definition ends_us (n : name) : bool :=
 (* validators: Some w = accepted and stored as w, None = TraitError.
    VInt = Int, VStr = Str, VCInt = CInt (a numeric string "k" is atom 100+k and converts to k),
    VFun = any other validator (used by the theorems, never by the generated cases) *)
-Inductive vkind := VInt | VStr | VCInt | VFun (f : Z -> option Z).
+Inductive vkind := VInt | VStr | VCInt | VNoneOnly | VFun (f : Z -> option Z).
 Definition validate (k : vkind) (v : Z) : option Z :=
   match k with
   | VInt => if (0 <=? v) && (v <? 100) then Some v else None
   | VStr => if (100 <=? v) && (v <? 200) then Some v else None
   | VCInt => if (0 <=? v) && (v <? 100) then Some v
              else if (100 <=? v) && (v <? 200) then Some (v - 100) else None
+  | VNoneOnly => if Z.eqb v VNone then Some v else None   (* Instance(TraitListEvent): only None is acceptable *)
   | VFun f => f v
   end.
 
@@ -72,15 +73,28 @@ Inductive policy :=
 | PEvent (k : option vkind)       (* Event() / Event(Int): getattr_event / setattr_event, optional validator *)
 | PTyped (k : vkind) (d : Z)      (* Int(d) / Str(d)     getattr_trait / setattr_trait with validator *)
 | PMap (m : list (Z * Z)) (d : Z) (* Map(m, default_value=d): is_mapped, validate = key of m, post_setattr sets name_ *)
-| PShadow (m : list (Z * Z)).     (* mapped_trait_for(Map(m), name): Any whose default is m[getattr(obj, name)] *)
+| PShadow (m : list (Z * Z))      (* mapped_trait_for(Map(m), name): Any whose default is m[getattr(obj, name)] *)
+| PList.                          (* List(Int): has_items; default an empty TraitListObject (atom 300); no atom
+                                     of the value universe is a list, so every assignment is rejected *)
+
+Definition VEmptyList : Z := 300.
+Definition items_suffix : name := [95; 105; 116; 101; 109; 115].     (* "_items" *)
 
 Fixpoint zassoc (k : Z) (m : list (Z * Z)) : option Z :=
   match m with [] => None | (a, b) :: r => if Z.eqb a k then Some b else zassoc k r end.
 (* traits that bring a sub-trait with them (handler.is_mapped) *)
 Definition mapped_of (p : policy) : option (list (Z * Z)) :=
   match p with PMap m _ => Some m | _ => None end.
+(* the sub-traits a trait brings with it under derived names: handler.has_items -> name_items =
+   handler.items_event() (an Event of TraitListEvent), handler.is_mapped -> name_ = the shadow *)
+Definition subs (n : name) (p : policy) : list (name * policy) :=
+  match p with
+  | PMap m _ => [(n ++ [US], PShadow m)]
+  | PList => [(n ++ items_suffix, PEvent (Some VNoneOnly))]
+  | _ => []
+  end.
 Definition plainp (p : policy) : bool :=
-  match p with PMap _ _ | PShadow _ => false | _ => true end.
+  match p with PMap _ _ | PShadow _ | PList => false | _ => true end.
 
 (* ---------- insertion-ordered dictionaries (Python dict) ---------- *)
 Section Assoc.
@@ -122,10 +136,8 @@ Definition own_step (acc : ctab * ptab) (d : name * policy) : ctab * ptab :=
   let '(ct, pt) := acc in
   let '(n, p) := d in
   if ends_us n then (ct, aset (removelast n) p pt)     (* l.506-508 *)
-  else match mapped_of p with                          (* l.468; l.488-491: class_traits[name + "_"] *)
-       | Some m => (aset (n ++ [US]) (PShadow m) (aset n p ct), pt)
-       | None => (aset n p ct, pt)
-       end.
+  else (* l.468; l.473-491: class_traits[name + "_items"], class_traits[name + "_"] *)
+       (fold_left (fun t e => aset (fst e) (snd e) t) (subs n p) (aset n p ct), pt).
 Definition own_tables (decls : list (name * policy)) : ctab * ptab :=
   fold_left own_step decls ([], []).
 
@@ -228,6 +240,7 @@ Section Object.
     | PAny d | PTyped _ d | PReadOnly d | PMap _ d =>           (* getattr_trait l.1978-1984: default stored *)
         out (set_od s (aset n d (s_od s))) n (Val d)            (* (PMap: post_setattr is added by [getattr_m]) *)
     | PShadow _ => out s n (Raise OtherError)                   (* handled by [getattr_m] *)
+    | PList => out (set_od s (aset n VEmptyList (s_od s))) n (Val VEmptyList)   (* TraitListObject([]) stored *)
     | PDisallow => out s n (Raise AttributeError)               (* getattr_disallow *)
     | PEvent _ => out s n (Raise AttributeError)                (* getattr_event *)
     | PConstant c => out s n (Val c)                            (* getattr_constant *)
@@ -243,6 +256,9 @@ Section Object.
              | Some _ => out (set_od s (aset n v (s_od s))) n Done
              | None => out s n (Raise TraitError)
              end
+    | PList =>                                                  (* no atom is a list: TraitError *)
+        if Z.eqb v VUndef then out (set_od s (aset n v (s_od s))) n Done
+        else out s n (Raise TraitError)
     | PTyped k _ =>                                             (* setattr_trait l.2444-2454 *)
         if Z.eqb v VUndef then out (set_od s (aset n v (s_od s))) n Done   (* Undefined is not validated *)
         else match validate k v with
@@ -274,7 +290,7 @@ Section Object.
     match p with
     | PPython => if amem n (s_od s) then out (set_od s (adel n (s_od s))) n Done
                  else out s n (Raise AttributeError)            (* setattr_python l.2199-2210 *)
-    | PAny _ | PTyped _ _ | PMap _ _ | PShadow _ =>
+    | PAny _ | PTyped _ _ | PMap _ _ | PShadow _ | PList =>
         out (set_od s (adel n (s_od s))) n Done                 (* setattr_trait l.2391-2405 *)
     | PDisallow => out s n (Raise TraitError)
     | PConstant _ => out s n (Raise TraitError)
@@ -351,7 +367,8 @@ Section Object.
         match o_out ob with
         | Val x => match zassoc x m with
                    | Some w => out (set_od s1 (aset n w (s_od s1))) n (Val w)
-                   | None => out s1 n (Raise OtherError)        (* KeyError *)
+                   | None =>                                     (* KeyError; a list value is unhashable *)
+                       out s1 n (Raise (if Z.eqb x VEmptyList then TypeError else OtherError))
                    end
         | Raise e => out s1 n (Raise e)
         | Done => out s1 n (Raise OtherError)
@@ -397,23 +414,18 @@ Section Object.
         | inr e => out s n (Raise e)
         end
     | OAdd n p =>
-        (* add_trait l.2829-2830: the shadow first, self.add_trait(name + "_", mapped_trait_for(..));
-           l.2838: itrait_dict[name] = trait *)
-        let itd := match mapped_of p with
-                   | Some m => aset (n ++ [US]) (PShadow m) (s_itd s)
-                   | None => s_itd s
-                   end in
+        (* add_trait l.2825-2830: the sub-traits first, self.add_trait(name + "_items", ..) /
+           self.add_trait(name + "_", mapped_trait_for(..)); l.2838: itrait_dict[name] = trait *)
+        let itd := fold_left (fun t e => aset (fst e) (snd e) t) (subs n p) (s_itd s) in
         out (mkState (s_ctd s) (aset n p itd) (s_od s)) n Done
     | ORem n =>                                          (* remove_trait l.2885-2905 *)
         let found := match assoc n (s_itd s) with Some p => Some p | None => assoc n (s_ctd s) end in
         match found with
         | None => out s n (Val 0)                               (* _trait(name, 0) is None *)
         | Some p =>
-            (* l.2893-2894: if handler.is_mapped: self.remove_trait(name + "_") *)
-            let s1 := match mapped_of p with
-                      | Some _ => rem1 s (n ++ [US])
-                      | None => s
-                      end in
+            (* l.2890-2894: if handler.has_items: self.remove_trait(name + "_items");
+               if handler.is_mapped: self.remove_trait(name + "_") *)
+            let s1 := fold_left rem1 (map fst (subs n p)) s in
             let r := amem n (s_itd s1) in
             out (rem1 s1 n) n (Val (if r then 1 else 0))
         end
